@@ -444,7 +444,9 @@ def return_event(c, hdr, rec, res, series, args_same):
     beta = c["beta"]
     bcaller = rec.hdr.get("_beta_caller")
     bp = [float(v) for v in (np.zeros(T) + np.asarray(bcaller, dtype=np.float64))]   # per-pair cost as the caller gave it
-    if finite:
+    ev["acctOk"] = (obs.o9_accounting(res, labels, K, float(np.asarray(bcaller).ravel()[0]))
+                    if c["fe"] == "single" and np.ndim(bcaller) == 0 else "inc")
+    if finite and not c.get("big"):
         s = proj.pick_scale(floats + [beta] + bp, n_terms=2 * T + 8)
         ev["scale"] = s
         ev["allLL"] = _limbs(all_ll, s)
